@@ -560,6 +560,17 @@ impl CircuitBuilder {
     }
 
     pub fn build(mut self, output_gates: Vec<GateIndex>) -> Circuit {
+        #[cfg(feature = "verif_hooks")]
+        if crate::verif_hooks::tracing() {
+            crate::verif_hooks::record_snapshot(crate::verif_hooks::Snapshot {
+                input_gates: self.input_gates.clone(),
+                shift: self.shift,
+                gates: self.verif_raw_gates(),
+                panic_wires: self.verif_panic_wires(),
+                outputs: output_gates.clone(),
+                events: vec![],
+            });
+        }
         self.gates.shrink_to_fit();
         let output_gates = self.remove_unused_gates(output_gates);
 
@@ -644,6 +655,20 @@ impl CircuitBuilder {
     }
 
     pub fn push_panic_if(&mut self, cond: GateIndex, reason: PanicReason, meta: MetaInfo) {
+        #[cfg(feature = "verif_hooks")]
+        if crate::verif_hooks::tracing() && crate::verif_hooks::intercept_panic_if() {
+            let before = self.verif_panic_wires();
+            let reason_code = wires_as_const(&reason.as_bits());
+            self.push_panic_if(cond, reason, meta);
+            crate::verif_hooks::record_event(crate::verif_hooks::Event::PanicIf {
+                cond,
+                reason: reason_code,
+                meta,
+                before,
+                after: self.verif_panic_wires(),
+            });
+            return;
+        }
         if let Some(existing_panic) = self.panic_gates.cache.get(&cond) {
             self.panic_gates.result = existing_panic.clone();
             return;
@@ -820,6 +845,12 @@ impl CircuitBuilder {
     }
 
     pub fn push_xor(&mut self, x: GateIndex, y: GateIndex) -> GateIndex {
+        #[cfg(feature = "verif_hooks")]
+        if crate::verif_hooks::intercept() {
+            let ret = self.push_xor(x, y);
+            crate::verif_hooks::record_req(crate::verif_hooks::ReqKind::Xor, x, y, ret);
+            return ret;
+        }
         if let Some(optimized) = self.optimize_xor(x, y) {
             self.gates_optimized += 1;
             optimized
@@ -945,6 +976,12 @@ impl CircuitBuilder {
     }
 
     pub fn push_and(&mut self, x: GateIndex, y: GateIndex) -> GateIndex {
+        #[cfg(feature = "verif_hooks")]
+        if crate::verif_hooks::intercept() {
+            let ret = self.push_and(x, y);
+            crate::verif_hooks::record_req(crate::verif_hooks::ReqKind::And, x, y, ret);
+            return ret;
+        }
         if let Some(optimized) = self.optimize_and(x, y) {
             self.gates_optimized += 1;
             optimized
@@ -1324,6 +1361,39 @@ impl CircuitBuilder {
             c.push_bitonic_merger(bits, ascending, input);
         }
         push_bitonic_sorter_inner(self, bits, true, input);
+    }
+}
+
+#[cfg(feature = "verif_hooks")]
+fn wires_as_const(bits: &[usize; USIZE_BITS]) -> u32 {
+    bits.iter().fold(0, |acc, b| (acc << 1) | (*b as u32 & 1))
+}
+
+#[cfg(feature = "verif_hooks")]
+impl CircuitBuilder {
+    pub(crate) fn verif_shift(&self) -> usize {
+        self.shift
+    }
+
+    pub(crate) fn verif_raw_gates(&self) -> Vec<(bool, GateIndex, GateIndex)> {
+        self.gates
+            .iter()
+            .map(|g| match g {
+                BuilderGate::Xor(x, y) => (false, *x, *y),
+                BuilderGate::And(x, y) => (true, *x, *y),
+            })
+            .collect()
+    }
+
+    pub(crate) fn verif_panic_wires(&self) -> Vec<GateIndex> {
+        let p = &self.panic_gates.result;
+        let mut wires = vec![p.has_panicked];
+        wires.extend(p.panic_type.iter());
+        wires.extend(p.start_line.iter());
+        wires.extend(p.start_column.iter());
+        wires.extend(p.end_line.iter());
+        wires.extend(p.end_column.iter());
+        wires
     }
 }
 
